@@ -210,6 +210,66 @@ fn check_seq(cfg: &Cfg, ops: &[Op], out: &mut JobOut) {
     }
 }
 
+/// `Default::default()` composites against parts wired from the parameters the instance REPORTS.
+fn check_defaults(out: &mut JobOut) {
+    use crate::subjects::make_default;
+    for k in [Kind::Bb, Kind::SlowStoch, Kind::Atr, Kind::Macd, Kind::Ppo, Kind::Kc, Kind::Ce, Kind::Cci] {
+        let d = match std::panic::catch_unwind(|| make_default(k)) {
+            Ok(d) => d,
+            Err(_) => continue,
+        };
+        let mut cfg = k.default_cfg();
+        if let Some(p) = d.period() {
+            cfg.p[0] = p;
+        }
+        if let Some(m) = d.multiplier() {
+            cfg.mult = m;
+        }
+        if cfg.periods().iter().any(|p| *p == 0) {
+            continue;
+        }
+        let len = 3 * cfg.max_period() + 3;
+        let pats = if matches!(k, Kind::Bb | Kind::Macd | Kind::Ppo) { super::refcmp::base_patterns_pos(len) } else { super::refcmp::base_patterns_bars(len) };
+        for (name, base) in pats {
+            let ops: Vec<Op> = base.as_ref().clone();
+            out.stats.states += 1;
+            out.stats.traces += 1;
+            out.stats.transitions += 2 * len as u64;
+            let r = std::panic::catch_unwind(std::panic::AssertUnwindSafe(|| {
+                let mut s = make_default(k);
+                let mut w = wire(&cfg);
+                let mut m = 0.0f64;
+                for (i, op) in ops.iter().enumerate() {
+                    m = m.max(op.maxmag());
+                    let got = s.apply(op);
+                    if let Some(Err(why)) = wired_step(&mut w, &cfg, op, i + 1, m, &got) {
+                        return Some((i, got, why));
+                    }
+                }
+                None
+            }));
+            out.stats.evaluations += len as u64;
+            match r {
+                Ok(None) => {}
+                Ok(Some((i, got, why))) => {
+                    out.fail(
+                        Violation::new(PROP, &cfg, &ops[..=i], "composite-differs-from-parts")
+                            .obs(out2s(&got))
+                            .exp("the documented combination of separately constructed public parts".into())
+                            .det(format!("{} [instance obtained from {}::default(), which reports {}; parts wired from the reported parameters; stream {}]", why, k.rust_type(), cfg.descr(), name))
+                            .with("constructor", format!("{}::default()", k.rust_type())),
+                    );
+                    return;
+                }
+                Err(_) => {
+                    out.fail(Violation::new(PROP, &cfg, &ops, "panic").obs("panic".into()).exp("outputs".into()));
+                    return;
+                }
+            }
+        }
+    }
+}
+
 pub fn run(ctx: &Ctx) -> CheckResult {
     let mut res = CheckResult::new(PROP, "model_checking");
     let th = ctx.tier_thorough;
@@ -302,6 +362,11 @@ pub fn run(ctx: &Ctx) -> CheckResult {
         out
     });
     res.absorb(merge_jobs(outs));
+    if !res.out.failed() {
+        let mut o = JobOut::default();
+        check_defaults(&mut o);
+        res.absorb(o);
+    }
     res.extra.insert("composite_configurations".into(), json!(jobs.len()));
     res.rule = "case = (composite configuration, stream): the real composite and separately constructed public parts (SMA, SD, EMA, FastStochastic, TrueRange, ATR, Minimum, Maximum, MAD) are fed the same stream; at every step the composite's outputs must equal the documented combination of the parts within tau(t)*M (variances for the Bollinger half-width, times the condition number for CCI/PPO, gated at 1e6); non-trivial = stream longer than the window".into();
     res.bounds = format!("BB/KC/CE periods {singles:?} x multipliers {{2,0,0.5,3}}, ATR, CCI, SLOW_STOCH (n x {{1,3}}), MACD/PPO over 6 period triples; all 9^{ds} mixed-sign/rough scalar streams and all 10^{db} valid-bar streams (BB, MACD and PPO are driven with bars as well as scalars; streams with reset(), composite and parts reset together) (side multipliers 1-2 levels shallower); the positive scalar / bar alphabets in a 2^-60 price unit for periods {{1,2,3,5}}");
